@@ -137,8 +137,19 @@ def step(ctx, g, w, b, docs, fails, flags):
             ident = None
             expect_refusal = "missing identifier"
         elif mode < 0.3 and list(dobj.bundles):
-            ident = r.choice(list(dobj.bundles)).identifier
+            q = r.choice(list(dobj.bundles)).identifier
+            # the identifier already in use, in any spelling that denotes it in this document
+            reps = [q]
+            for rep in (str(q), q.uri, Identifier(q.uri)):
+                try:
+                    back = dobj.valid_qualified_name(rep)       # strings and Identifiers are resolved without side effects
+                except Exception:  # noqa
+                    back = None
+                if back is not None and back.uri == q.uri:
+                    reps.append(rep)
+            ident = r.choice(reps)
             expect_refusal = "duplicate identifier"
+            ctx.count("duplicate-id-as:" + type(ident).__name__)
         if oobj.is_document() and list(oobj.bundles):
             expect_refusal = "document with nested bundles"
         obs_d = proto.canon_cont(dobj)
